@@ -269,7 +269,10 @@ def run_assign(case):
         return out
     o = cls()
     if case.get("old") is not None:
-        o.x = build(case["old"], objs)
+        try:
+            o.x = build(case["old"], objs)
+        except Exception:      # e.g. refused by the checker of the parameter: the object stays as it was
+            pass
     if case.get("sealed"):
         o.__xpm__._sealed = True  # what Sealer.postprocess does (the walk itself refuses non-str dict keys)
     out["before"] = stored(o, objs)
@@ -343,8 +346,22 @@ def run_graph(case, xp):
                 objs.by_id[i].add_pretasks(*[objs.by_id[j] for j in n["pre"]])
 
     wire(lambda i: i in region)
+    # a saved definition that lacks a field the class requires (written before the parameter existed, edited ...):
+    # the object is saved complete (the identifier written along needs every value) and the field is then removed
+    # from the definition
+    stripped = set()
+    for i in sorted(region):
+        o = objs.by_id[i]
+        for name, arg in o.__xpmtype__.arguments.items():
+            if arg.required and not arg.generator and o.__xpm__.values.get(name) is None:
+                o.__xpm__.set(name, [] if isinstance(arg.type, xtypes.ArrayType) else 0, bypass=True)
+                stripped.add((id(o), name))
     for r in (case.get("loaded") or {}).get("roots", []):
         state = state_dict(SerializationContext(), objs.by_id[r])
+        for definition in state["objects"]:
+            for name in list(definition["fields"]):
+                if (definition["id"], name) in stripped:
+                    del definition["fields"][name]
         remap_loaded(nodes, objs, r, from_state_dict(json.loads(json.dumps(state))))
     wire(lambda i: i not in region)
     answers = []
